@@ -62,6 +62,17 @@ fn gen_c03(rng: &mut Rng, thorough: bool) -> Case {
         c.profile = "scheduled-conservation".into();
         return c;
     }
+    // One case in sixteen: port clones held by different models that gain connections while the
+    // simulation runs (the C14 bench: connect through one clone, send through another).
+    if rng.pct(6) {
+        for _ in 0..8 {
+            let mut c = gen_c14(rng, thorough);
+            if c.comp.is_none() {
+                c.profile = "conservation-clones".into();
+                return c;
+            }
+        }
+    }
     let mut c = gen::gen_flow(rng, &o);
     c.profile = "conservation".into();
     // One case in sixteen: the mailbox of a connected recipient was dropped. Then a run must not
